@@ -117,7 +117,7 @@ namespace bxdecay0 {
     double cone_aperture  = config_.cone_aperture_degree * M_PI / 180.0;
     double cone_aperture2 = std::numeric_limits<double>::quiet_NaN();
     if (std::isnormal(config_.cone_aperture2_degree) and config_.cone_aperture2_degree >= 0.0) {
-      cone_aperture2 = config_.cone_aperture_degree * M_PI / 180.0;
+      cone_aperture2 = config_.cone_aperture2_degree * M_PI / 180.0;
     }
     double cx = std::cos(cone_phi) * std::sin(cone_theta);
     double cy = std::sin(cone_phi) * std::sin(cone_theta);
